@@ -485,7 +485,8 @@ fn wants_json(command: &Commands) -> bool {
 
 /// The raw command line contains `--output json` or `--output=json` (used only when clap could not parse it)
 fn argv_asks_for_json() -> bool {
-    let args: Vec<String> = std::env::args().collect();
+    // `args_os`: `std::env::args` panics on an argument that is not valid Unicode (a file name)
+    let args: Vec<std::ffi::OsString> = std::env::args_os().collect();
     args.iter().any(|a| a == "--output=json")
         || args
             .windows(2)
